@@ -12,19 +12,12 @@ git diff -- vyxal documents > /tmp/seed_patch.diff
 echo "demo exit with=$W without=$O"
 mkdir -p /verif/seeded/$ID && cp /tmp/seed_patch.diff /verif/seeded/$ID/patch.diff && cp seed/demo.py /verif/seeded/$ID/demo.py && cp seed/notes.md /verif/seeded/$ID/notes.md 2>/dev/null
 cd /verif
-# SEED_VIA_WT=1: point the check at the agent's worktree (VERIF_REPO) instead of patching /repo — same code under test,
-# used while a background run is reading /repo
-if [ "${SEED_VIA_WT:-0}" = 1 ]; then
-  git -C /repo apply --check /verif/seeded/$ID/patch.diff || { echo "PATCH DOES NOT APPLY"; exit 8; }
-  echo "== check $PROP against the change (VERIF_REPO=$WT)"
-  VERIF_REPO=$WT timeout 1500 ./check $PROP > /tmp/seed_check.txt 2>&1; C=$?
-else
-git -C /repo apply /verif/seeded/$ID/patch.diff || { echo "PATCH DOES NOT APPLY"; exit 8; }
-echo "== check $PROP against the change"
-timeout 1500 ./check $PROP > /tmp/seed_check.txt 2>&1; C=$?
-fi
+# The check is pointed at the agent's worktree (VERIF_REPO) — /repo itself is NEVER patched: an interrupted run once left a seeded
+# change applied in /repo (DESIGN §11.4), and this way an interruption leaves nothing behind but the scratch worktree.
+git -C /repo apply --check /verif/seeded/$ID/patch.diff || { echo "PATCH DOES NOT APPLY"; exit 8; }
+echo "== check $PROP against the change (VERIF_REPO=$WT)"
+VERIF_REPO=$WT timeout 1500 ./check $PROP > /tmp/seed_check.txt 2>&1; C=$?
 grep -a "VIOLATION\|^  failing input\|^  broken\|^  correspondence\|quick:" /tmp/seed_check.txt | head -8
-[ "${SEED_VIA_WT:-0}" = 1 ] || git -C /repo checkout -- .
 # the run above rewrote evidence/<prop>.json and harness/gen.json from the CHANGED tree: put the committed ones back
 git -C /verif checkout -- evidence/$PROP.json harness/gen.json lean/VyxalModel/Gen 2>/dev/null
 echo "check exit=$C"
@@ -40,7 +33,7 @@ meta={"seed":id_,"breaks_property":prop,"needs_to_manifest":notes.strip()[:1200]
       "confirmed":{"demo_exit_with_change":int(w),"demo_exit_without_change":int(o),"suite_with_change":suite},
       "check":{"command":f"./check {prop} --tier quick","exit":int(c),"violation_line":m.group(0) if m else None,
                "failing_input":fi.group(1)[:500] if fi else None},
-      "procedure":"agent worktree: demo with/without the change (git stash), full suite with the change; then git -C /repo apply patch.diff, ./check, git -C /repo checkout -- ."}
+      "procedure":"agent worktree: demo with/without the change (git stash), full suite with the change; then VERIF_REPO=<worktree> ./check (the patch is verified to apply to /repo, /repo is not touched)"}
 json.dump(meta,open(f'/verif/seeded/{id_}/meta.json','w'),ensure_ascii=False,indent=1)
 print("detected" if int(c)==1 and m else "MISSED")
 PY
